@@ -18,8 +18,10 @@ let cmd_ops (t : toks) (buf : Buffer.t) : unit =
   let k = next_int t in
   let tb = ref init_table in
   for _ = 1 to k do
-    let o = read_op t in
-    let (tb', st) = step (nat_of_int n) !tb o in
+    let (tb', st) =
+      (match t.rest with
+       | "neg" :: r -> t.rest <- r; (neg_table (nat_of_int n) !tb, Ok)
+       | _ -> let o = read_op t in step (nat_of_int n) !tb o) in
     tb := tb';
     Buffer.add_string buf (match st with Ok -> "| ok" | Err -> "| err");
     print_table buf !tb size;
@@ -36,3 +38,20 @@ let cmd_structure (t : toks) (buf : Buffer.t) : unit =
   List.iter (fun row -> List.iter (fun x -> add buf (string_of_int (int_of_z x)); add buf " ") row; add buf "| ")
     (st_matrix (nat_of_int n))
 let () = register "structure" cmd_structure
+
+(* getters <n> <table> <k> ids... : get_value per id | get_values_of ids | get_known_values_of ids | full *)
+let cmd_getters (t : toks) (buf : Buffer.t) : unit =
+  let n = next_int t in
+  let size = 1 lsl n in
+  let tb = read_table t size in
+  let ids = next_list t next_n in
+  List.iter (fun s -> match get_value tb s with None -> add buf "E " | Some x -> add buf (string_of_q x ^ " ")) ids;
+  add buf "| ";
+  (match get_values_of tb ids with None -> add buf "E " | Some l -> List.iter (fun x -> add buf (string_of_q x ^ " ")) l);
+  add buf "| ";
+  List.iter (fun o -> match o with None -> add buf "nan " | Some x -> add buf (string_of_q x ^ " ")) (get_known_values_of tb ids);
+  add buf "| ";
+  List.iter (fun s -> match get_known_value tb s with None -> add buf "None " | Some x -> add buf (string_of_q x ^ " ")) ids;
+  add buf "| ";
+  add buf (if is_full (nat_of_int n) tb then "1" else "0")
+let () = register "getters" cmd_getters
